@@ -18,6 +18,8 @@ const (
 	VerifEvCRLock, VerifEvCRUnlock, VerifEvROLock, VerifEvROSent, VerifEvTxnLock, VerifEvTxnUnlock = 0, 0, 0, 0, 0, 0
 
 	VerifYpMergeRecv, VerifYpUnlock, VerifYpLocked, VerifYpJournal = 0, 0, 0, 0
+
+	VerifEvMergeInfo, VerifEvJournalArgs, VerifEvJournalSize, VerifEvPutMem = 0, 0, 0, 0
 )
 
 func verifErrClass(err error) uint64 { return 0 }
@@ -25,3 +27,11 @@ func verifErrClass(err error) uint64 { return 0 }
 func verifWID(b *Batch, key []byte) uint64 { return 0 }
 
 func verifB(b bool) uint64 { return 0 }
+
+func verifMergeInfo(m writeMerge) uint64 { return 0 }
+
+func verifJournalArgs(batches []*Batch, sync bool) uint64 { return 0 }
+
+func verifBatchesBytes(batches []*Batch) uint64 { return 0 }
+
+func verifBatchesWID(batches []*Batch) uint64 { return 0 }
